@@ -75,6 +75,16 @@ def cex_request(req, impl, seed=1, tries=3000):
     if op == "rewrite":
         mode = "ht" if r[1] in INTUITIONISTIC_REWRITES else "classic"
         return sx.dump(["cex_equiv", mode, r[2], a, str(seed), str(tries)])
+    if op == "strong":
+        if not isinstance(a, list) or a in (["error"], ["timeout"]):
+            return None
+        return sx.dump(["cex_strong", r[1], r[2], r[4], a, str(seed), str(tries)])
+    if op in ("tau_star", "mu", "natural"):
+        if isinstance(a, list) and len(a) == 2 and a[0] == "some":
+            a = a[1]
+        if not isinstance(a, list) or a == ["error"]:
+            return None
+        return sx.dump(["cex_prog", r[1], a, str(seed), str(tries)])
     if op == "tptp_formula":
         if not isinstance(a, tuple):
             return None
@@ -110,8 +120,9 @@ def search_generic(mismatches, outdir):
                     kept.append(m)
         cands = kept
     reqs, idx = [], []
-    for m in cands[:40]:
-        q = cex_request(m["request"], m["impl"], tries=400)
+    many = bool(cands) and cands[0]["request"].startswith(("(tau_star", "(mu", "(natural", "(strong"))
+    for m in cands[:(200 if many else 40)]:
+        q = cex_request(m["request"], m["impl"], tries=(120 if many else 400))
         if q:
             reqs.append(q)
             idx.append(m)
@@ -494,6 +505,7 @@ PROPS = {
         "assumptions": COMMON_ASSUME + ["globalsPanic = false (no usize overflow of the fresh global-variable indices) is a hypothesis of tau_star_correct; the overflowing input is reported separately (C16 known finding)"],
     },
     "C03": {
+        "search": search_generic,
         "suites": [("strong", 400, 8000)],
         "extra": c03_extra,
         "rule": "seeded program pairs x {independent, sequential} x {universal, forward, backward} x {mu, tau-star} x simplify x eq-break; StrongEquivalenceTask::decompose "
@@ -526,6 +538,7 @@ PROPS = {
         "assumptions": COMMON_ASSUME,
     },
     "C08": {
+        "search": search_generic,
         "suites": [("natural", 1200, 30000)],
         "rule": "seeded programs biased to arithmetic; natural() (incl. None), mu(), is_regular() vs the Lean model, exact equality",
         "level_text": "Full for the model: natural_correct - every formula the natural translation prints for a rule it accepts holds in an HT interpretation (H subset T; any world, assignment) iff the rule "
